@@ -16,9 +16,14 @@ from ..server import yggdrasil
 SHARDS = {'quick': 4, 'thorough': 16}
 
 STATUSES = [200, 204, 400, 401, 403, 404, 429, 500, 503]
+# every other client/server error code a proxy or the service may answer with
+# (no status has a meaning of its own to the library)
+MORE_STATUSES = [402, 405, 406, 408, 409, 410, 411, 413, 415, 418, 422, 423,
+                 426, 428, 431, 451, 499, 501, 502, 504, 507, 511, 520, 599]
 BODIES = ['valid', 'error', 'error+cause', 'partial-error', 'non-json', 'empty',
           'json-null', 'json-number', 'json-string', 'json-list',
-          'error-meta', 'non-json-meta', 'partial-error-meta']
+          'error-meta', 'non-json-meta', 'partial-error-meta', 'non-utf8',
+          'json-cut-inside-character']
 OPS = ['authenticate', 'authenticate-invalidate', 'refresh', 'validate',
        'invalidate', 'join', 'sign_out']
 FIELDS = ['username', 'access_token', 'client_token', 'profile_id',
@@ -47,6 +52,12 @@ def body_for(shape, n):
         return b'<html><div style="width: 100%">{busy} %s %(x)d</div></html>'
     if shape == 'partial-error-meta':
         return json.dumps({'errorMessage': '100% {full}'}).encode()
+    # bodies that are not valid UTF-8 (a Latin-1 page from a proxy; an error
+    # object cut in the middle of a multi-byte character)
+    if shape == 'non-utf8':
+        return b'\xff\xfe<html>acc\xe8s refus\xe9</html>'
+    if shape == 'json-cut-inside-character':
+        return b'{"error":"X","errorMessage":"caf\xc3'
     if shape == 'partial-error':
         return json.dumps({'error': 'OnlyHalf'}).encode()
     if shape == 'non-json':
@@ -295,7 +306,7 @@ def run(run):
         # ---- full status x body product per operation ------------------------
         k = 0
         for op in OPS:
-            for status in STATUSES:
+            for status in STATUSES + MORE_STATUSES:
                 for shape in BODIES:
                     k += 1
                     if not run.mine(k):
